@@ -130,7 +130,7 @@ func timeoutInputs(tier string, seed int64) []string {
 	}
 	nrand := 300
 	if tier == "thorough" {
-		nrand = 60000
+		nrand = 300000
 	}
 	for i := 0; i < nrand; i++ {
 		nd := 1 + rng.Intn(10)
